@@ -63,6 +63,13 @@ def run(ctx):
         else:
             want = formats.SPECS[fmt](data).size
         final = res['final']['virtual_size']
+        if final[0] == 'unevaluable' or any(
+                ch['virtual_size'][0] == 'unevaluable'
+                for ch in res['chunks']):
+            undecided.setdefault(fmt, (label, sched, 'virtual_size is a '
+                                       'term the model cannot evaluate: %s'
+                                       % (final,)))
+            continue
         n_ok[fmt] = n_ok.get(fmt, 0) + 1
         if len(rep.samples) < 10 and sched == 'giant':
             rep.case({'format': fmt, 'image': label, 'schedule': sched,
